@@ -161,18 +161,20 @@ pub fn record(output: &str) {
     for k in 0..n {
         let mut p = robots::geometry(robots::GEOMETRY_CLASSES[k % robots::GEOMETRY_CLASSES.len()], &mut r);
         p = robots::convention(p, r.gen_range(0..64), ["zero", "quarter", "random"][k % 3], &mut r);
-        let robot = Robot::new(p, vec![], None);
+        // the framed robot may itself stand on a (rotated and displaced) base and carry a tool
+        let inner_layers = match k % 4 { 1 => solver::stack_for("base", &mut r), 2 => solver::stack_for("base+tool", &mut r), _ => vec![] };
+        let robot = Robot::new(p, inner_layers, None);
         // a small displacement so that the moved pose stays reachable most of the time
         let mut fr = solver::random_iso(&mut r, 0.05);
         if k % 2 == 0 { fr.r = oracle::rot(['x', 'y', 'z'][k % 3], r.gen_range(-0.1..0.1)); }
-        let framed = Frame { robot: Arc::new(OPWKinematics::new(p)), frame: fr.to_na() };
+        let framed = Frame { robot: robot.kin.clone(), frame: fr.to_na() };
         let q: Joints = std::array::from_fn(|_| r.gen_range(-2.5..2.5));
         let prev: Joints = std::array::from_fn(|i| q[i] + r.gen_range(-0.05..0.05));
         let Some((sols, pose)) = guarded(|| framed.forward_transformed(&q, &prev)) else {
             out.put(json!({"ev": "ftrans", "outcome": "panic"}));
             continue;
         };
-        let want = fr.mul(&oracle::fk(&p, &q));
+        let want = fr.mul(&robot.ofk(&q));
         let got = Iso::from_na(&pose);
         let costs: Vec<i64> = sols.iter().map(|s| (0..6).map(|j| rad2au(s[j]) - rad2au(prev[j])).map(|d: i64| d.abs()).sum()).collect();
         out.put(json!({"ev": "ftrans", "outcome": "ok", "pose_pos_nm": nano(got.dpos(&want)), "pose_rot_nrad": nano(got.drot(&want)),
